@@ -38,7 +38,7 @@ def generate(seed, tier):
     for i in range(NCASES[tier]):
         cs = K.harness_seed(seed, ID, i)
         rng = random.Random(cs)
-        prog, feats, meta = G.generate(cs, rng.choice(["guarded", "guarded", "guarded", "discrete"]))
+        prog, feats, meta = G.generate(cs, rng.choice(["guarded", "guarded", "guarded", "discrete", "counter", "counter"]))
         if prog.guard == ("true",):
             g = G.Gen(random.Random(cs + 1), "guarded")
             g.fin = {k: set(v) for k, v in meta["fin"].items()}
